@@ -60,8 +60,13 @@ func (m *MutexCore) TryLock() bool {
 	return false
 }
 
-// Unlock releases the mutex.
+// Unlock releases the mutex; a scheduling point follows the release (a real
+// goroutine can be preempted right after an unlock, which matters for code
+// that goes on to read shared state without the lock).
 func (m *MutexCore) Unlock() {
 	m.setLocked(false)
 	m.real.Unlock()
+	if s := Active(); s != nil && s.Self() != nil && !s.Ended() {
+		Yield("mutex.Unlock")
+	}
 }
